@@ -58,6 +58,7 @@ def shards(tier, seed):
                 continue
             out.append(dict(leg="dataarray", dims=list(dims), grouper=grouper, tier=tier))
     out.append(dict(leg="dataset", tier=tier))
+    out.append(dict(leg="multi", tier=tier))
     return out
 
 
@@ -247,6 +248,8 @@ def run_shard(shard):
                             run_one(res, obj, by, func, skipna, None, True, case, tags, len(dims) * 10 + 1, dim=dim)
                             res.nontrivial += 1
         res.sample(dict(leg="dataarray", dims=list(dims), grouper=grouper, funcs=FUNCS, skipna=[None, True, False], chunked=[False, True]))
+    elif shard["leg"] == "multi":
+        run_multi(res)
     else:
         for chunked in (False, True):
             a = make_da(("x", "y"), chunked)
@@ -265,6 +268,66 @@ def run_shard(shard):
     return res
 
 
+def run_multi(res):
+    """Several groupers: native xarray lays the result out differently, so the oracle is the tuple-key model via groupby_reduce on
+    the underlying arrays (tied to the tuple-key semantics by C07) plus the structural rules: kept dims first in object order,
+    one new dim per grouper in the order given, coordinates = the labels."""
+    import flox
+    import xarray as xr
+    from flox.xarray import xarray_reduce
+
+    for dims in (("x", "y"), ("y", "x"), ("t", "x", "y"), ("x", "t", "y")):
+        for chunked in (False, True):
+            base = make_da(dims, chunked)
+            obj = base.assign_coords(labx=("x", np.array([1, 0, 1])), laby=("y", np.array([5.0, NAN])))
+            for groupers in (("labx", "laby"), ("laby", "labx")):
+                for func in ("sum", "mean", "count", "max"):
+                    case = dict(leg="multi", dims=list(dims), groupers=list(groupers), func=func, chunked=chunked)
+                    tags = dict(leg2="multi", func=func, chunked=chunked)
+                    res.evaluations += 1
+                    res.states += 1
+                    res.transitions += 2
+                    try:
+                        with warnings.catch_warnings(), np.errstate(all="ignore"):
+                            warnings.simplefilter("ignore")
+                            got = xarray_reduce(obj, *groupers, func=func)
+                            if hasattr(got, "compute"):
+                                got = got.compute(scheduler="sync")
+                    except e1.REFUSALS as e:
+                        res.outcomes[f"refused:{type(e).__name__}"] += 1
+                        continue
+                    except Exception as e:
+                        res.outcomes[f"error:{type(e).__name__}"] += 1
+                        res.violate("xarray-error", case, dict(exc=type(e).__name__, msg=str(e)[:200]), "a result", tags=dict(tags, kind="error"), size=30)
+                        continue
+                    # reference on the underlying arrays: move x, y last, broadcast the two label arrays over (x, y)
+                    arr = base.compute().transpose(..., "x", "y").values if chunked else base.transpose(..., "x", "y").values
+                    bx = np.broadcast_to(np.array([1, 0, 1])[:, None], (3, 2))
+                    by = np.broadcast_to(np.array([5.0, NAN])[None, :], (3, 2))
+                    first, second = (bx, by) if groupers[0] == "labx" else (by, bx)
+                    nanfunc = {"sum": "nansum", "mean": "nanmean", "max": "nanmax", "count": "count"}[func]
+                    ref, g1, g2 = flox.groupby_reduce(arr, first, second, func=nanfunc)
+                    res.compared += 1
+                    res.nontrivial += 1
+                    want_dims = tuple(d for d in dims if d not in ("x", "y")) + tuple(groupers)
+                    probs = []
+                    if tuple(got.dims) != want_dims:
+                        probs.append(f"dims {got.dims} != {want_dims}")
+                    elif not np.allclose(np.asarray(got.values, dtype=float), np.asarray(ref, dtype=float), equal_nan=True):
+                        probs.append(f"values {np.asarray(got.values).tolist()} != {np.asarray(ref).tolist()}")
+                    else:
+                        for name, lab in zip(groupers, (g1, g2)):
+                            if name not in got.coords or not np.array_equal(np.asarray(got.coords[name].values, dtype=float), np.asarray(lab, dtype=float)):
+                                probs.append(f"coordinate {name} != {np.asarray(lab).tolist()}")
+                    if probs:
+                        res.outcomes["mismatch"] += 1
+                        res.violate("xarray-multi-differs", case, dict(problems=probs), "tuple-key result of groupby_reduce on the underlying arrays",
+                                    tags=dict(tags, kind="multi"), size=30)
+                    else:
+                        res.outcomes["ok"] += 1
+    res.sample(dict(leg="multi", groupers=["labx (on x)", "laby (on y, with a missing label)"], dims=[["x", "y"], ["t", "x", "y"]]))
+
+
 def replay(payload):
     import xarray as xr
 
@@ -276,6 +339,8 @@ def replay(payload):
         dim = c.get("dim")
         dim = ... if dim == "..." else (tuple(dim) if isinstance(dim, list) else dim)
         run_one(res, obj, by, c["func"], c["skipna"], c.get("min_count"), c["keep_attrs"], c, dict(kind="replay"), 10, dim=dim)
+    elif c["leg"] == "multi":
+        run_multi(res)
     else:
         return run_shard(dict(leg="dataset", tier="quick"))
     return res
